@@ -192,3 +192,13 @@ func (s *SUT) AttemptFamily(rng *rand.Rand, fam string, viaVerify bool) (Op, []P
 	}
 	return s.log(Op{Kind: "family", Arg: fam + via, Result: res}), ps
 }
+
+// SubmitProg pre-executes a $verif program on the live state (pool included), signs it with a
+// random key and submits it (VerifyTx + DoTx); returns the submission result ("ok" or the refusal).
+func (s *SUT) SubmitProg(rng *rand.Rand, p *sn.ProgBuilder) string {
+	x := s.kvTx(rng, p)
+	if x == nil {
+		return "preexec-failed"
+	}
+	return s.SubmitTx(x)
+}
